@@ -149,6 +149,10 @@ def run(ctx):
     import pskel as _pskel
     _pskel.rule_P_PRIM(ctx)
     _pskel.rule_P_SKELETON(ctx)
+    # naming-law lints over the modules this property lives in (sibling slips: truth<->budget, stamp<->punctuation, left<->right, swapped arguments)
+    import roles as _roles
+    _roles.rule_R_ROLE(ctx, modules=('conversion::string::impl_enum::parser', 'conversion::string::impl_lexical::parser', 'conversion::string::impl_enum::macros', 'conversion::string::impl_lexical::macros'))
+    _roles.rule_A_NAMES(ctx, modules=('conversion::string::impl_enum::parser', 'conversion::string::impl_lexical::parser', 'conversion::string::impl_enum::macros', 'conversion::string::impl_lexical::macros'))
     ctx.undecided = ["that removing ALL spaces never glues two tokens for every value (the copula look-ahead and identifier classes make "
                      "this value-dependent)", "the macro's whitespace stripping is an instance of `remove all spaces` and has no separate rule"]
     ctx.assumptions = ["the flag correlation modelled by the typestate (ok = match result {Ok=>true,Err=>false}) is the only one the parser's macros create"]
